@@ -196,24 +196,38 @@ def main():
     widened = 0
     if (broken or model_only) and not failing and tier == "quick" and not args.replay and driver_ok:
         try:
-            more = [c for c in P.gen("thorough", cx.Rng(seed + 1)) if c[0] not in set(lines)]
+            seen_lines = set(lines)
+            more = [c for c in P.gen("thorough", cx.Rng(seed + 1)) if c[0] not in seen_lines]
         except Exception as e:  # noqa
             more = []
             notes.append(f"thorough generator failed during widened search: {e}")
         if more:
-            mlines = [c[0] for c in more]
-            mouts = {}
-            for v in variants:
-                mouts["code:" + v] = cx.run_exec([cx.harness_bin(v), "run"], mlines)
-            mouts["impl"] = cx.run_exec([cx.CXDRV, "impl"], mlines)
-            mouts["spec"] = cx.run_exec([cx.CXDRV, "spec"], mlines)
-            for i, (line, kind) in enumerate(more):
-                row = {k: o[i] for k, o in mouts.items()}
-                verdict = cmp_fn(line, kind, row) if cmp_fn else default_compare(row, variants, kind)
-                if verdict[0] == "fail":
-                    failing.append({"line": line, "kind": kind, "answers": row, "why": verdict[1]})
-            widened = len(more)
-            cx.log(f"[{prop}] widened search: {widened} thorough-tier cases, failing={len(failing)}")
+            # strided chunks (each one a representative sample of the whole thorough workload); stop at the first chunk
+            # with a failing case (one concrete input is what the replay needs) or when the time budget is used up
+            budget = float(os.environ.get("VERIF_WIDEN_SECONDS", "180"))
+            tw = time.time()
+            nch = max(1, (len(more) + 3999) // 4000)
+            for j in range(nch):
+                chunk = more[j::nch]
+                mlines = [c[0] for c in chunk]
+                mouts = {}
+                for v in variants:
+                    mouts["code:" + v] = cx.run_exec([cx.harness_bin(v), "run"], mlines)
+                mouts["impl"] = cx.run_exec([cx.CXDRV, "impl"], mlines)
+                mouts["spec"] = cx.run_exec([cx.CXDRV, "spec"], mlines)
+                for i, (line, kind) in enumerate(chunk):
+                    row = {k: o[i] for k, o in mouts.items()}
+                    verdict = cmp_fn(line, kind, row) if cmp_fn else default_compare(row, variants, kind)
+                    if verdict[0] == "fail":
+                        failing.append({"line": line, "kind": kind, "answers": row, "why": verdict[1]})
+                widened += len(chunk)
+                cx.log(f"[{prop}] widened chunk {j + 1}/{nch}: {len(chunk)} cases, {time.time() - tw:.0f}s elapsed")
+                if failing:
+                    break
+                if time.time() - tw > budget and j + 1 < nch:
+                    notes.append(f"widened search stopped after {widened} of {len(more)} thorough-tier cases (time budget {budget:.0f}s)")
+                    break
+            cx.log(f"[{prop}] widened search: {widened} of {len(more)} thorough-tier cases, failing={len(failing)}")
 
     # 7. verdict
     viol_lines = []
